@@ -201,6 +201,26 @@ func (e *EvalCtx) eval(n *XNode) Val {
 		}
 		orig := "(" + n.Op + " (" + strings.Join(binds, " ") + ") " + body + ")"
 		asHyp := e.f.hypMode != e.neg
+		if !e.nopol && ((n.Op == "forall" && asHyp) || (n.Op == "exists" && !asHyp)) && len(n.Bind) <= 2 {
+			// string-keyed hypotheses ("for every key of the map ..."): trigger on the membership test of each bound key
+			allStr := true
+			var pats []string
+			for _, b := range n.Bind {
+				if sortOfType(e.typeByName(b.Type)) != "Str" {
+					allStr = false
+					break
+				}
+				t := domainReadOf(body, "q_"+b.Name)
+				if t == "" {
+					allStr = false
+					break
+				}
+				pats = append(pats, t)
+			}
+			if allStr && len(pats) == len(n.Bind) {
+				return S{"(" + n.Op + " (" + strings.Join(binds, " ") + ") (! " + body + " :pattern (" + strings.Join(pats, " ") + ")))", boolT}
+			}
+		}
 		if !e.nopol && ((n.Op == "forall" && asHyp) || (n.Op == "exists" && !asHyp)) && len(n.Bind) == 1 && sortOfType(e.typeByName(n.Bind[0].Type)) == "Int" {
 			// as a hypothesis: add re-parameterised copies quantified over the absolute array index, so that any read of the array triggers them
 			q := "q_" + n.Bind[0].Name
@@ -269,6 +289,39 @@ func (e *EvalCtx) eval(n *XNode) Val {
 	}
 	e.fail("unsupported expression node %s", n.Op)
 	return nil
+}
+
+// domainReadOf finds a term (select (select <map domain array> <ref>) q) in an SMT body: the membership test of key q.
+func domainReadOf(body, q string) string {
+	needle := " " + q + ")"
+	for from := 0; ; {
+		i := strings.Index(body[from:], needle)
+		if i < 0 {
+			return ""
+		}
+		end := from + i + len(needle)
+		// walk back to the opening parenthesis of this s-expression
+		depth := 0
+		start := -1
+		for j := end - 1; j >= 0; j-- {
+			if body[j] == ')' {
+				depth++
+			} else if body[j] == '(' {
+				depth--
+				if depth == 0 {
+					start = j
+					break
+				}
+			}
+		}
+		if start >= 0 {
+			t := body[start:end]
+			if strings.HasPrefix(t, "(select (select ") && (strings.Contains(t[:40+min(0, len(t)-40)], "md:") || strings.Contains(t[:min(len(t), 60)], "md_") || strings.Contains(t[:min(len(t), 60)], ".vis")) && !strings.Contains(t[len("(select "):len(t)-len(needle)], " q_") {
+				return t
+			}
+		}
+		from = end
+	}
 }
 
 func (e *EvalCtx) typeByName(name string) types.Type {
@@ -951,6 +1004,11 @@ func (e *EvalCtx) typeClauses(v Val, views bool) string {
 		clauses = tc.Views
 	}
 	for _, cl := range clauses {
+		if views && strings.Contains(cl.Text, "forall") {
+			// recurrences (list_off, lvar_off) are matching loops when instantiated for one object without a range in sight;
+			// for an object under construction only the closed-form views are stated
+			continue
+		}
 		n, err := parseXExpr(cl.Text)
 		if err != nil {
 			e.fail("%v", err)
